@@ -107,28 +107,35 @@ class World:
         self.step = 0
         self.fps = []
         self.nontrivial = 0
-        self.probes = {
-            'alloc_ok': 0, 'alloc_refused': 0, 'alloc_exhausted': 0,
-            'nonowner_release_attempts': 0, 'owner_releases': 0,
-            'second_owner_create_refused': 0, 'same_owner_recreate': 0,
-            'spec_recreate_refused': 0,
-            'gc_with_live_and_dead': 0, 'gc_reclaimed': 0,
-            'unlink_all_removed': 0, 'unlink_all_skipped_foreign': 0,
-            'net_requests': 0, 'net_replies_ok': 0, 'net_replies_error': 0,
-            'net_same_ip_after_restart': 0, 'svc_restarts': 0,
-            'svc_restart_with_live_requests': 0, 'svc_start_failed': 0,
-            'svc_died': 0, 'stale_requests_reclaimed': 0,
-            'starts_ok': 0, 'starts_not_ready': 0, 'starts_failed': 0,
-            'finishes_complete': 0, 'finishes_repeated': 0,
-            'finish_with_others_registered': 0, 'finish_removed_entries': 0,
-            'port_collisions': 0, 'port_reused_after_death': 0,
-            'ip_reused': 0, 'drain_checks': 0, 'same_instance_overlap': 0,
-            'order_permuted_listings': 0,
-        }
-        self.faults = {'start_killed': 0, 'finish_killed': 0,
-                       'svc_killed_mid_request': 0, 'svc_crash': 0,
-                       'command_failed': 0, 'owner_vanished': 0,
-                       'eaddrinuse': 0}
+        if prop == 'C14':
+            self.probes = dict.fromkeys((
+                'alloc_ok', 'alloc_refused', 'alloc_exhausted',
+                'nonowner_release_attempts', 'owner_releases',
+                'second_owner_create_refused', 'same_owner_recreate',
+                'spec_recreate_refused', 'gc_with_live_and_dead',
+                'gc_reclaimed', 'unlink_all_removed',
+                'unlink_all_skipped_foreign', 'net_requests',
+                'net_replies_ok', 'net_replies_error',
+                'net_same_ip_after_restart', 'svc_restarts',
+                'svc_restart_with_live_requests', 'svc_start_failed',
+                'svc_died', 'stale_requests_reclaimed', 'ip_reused',
+                'id_requested_again_before_delete_processed',
+                'order_permuted_listings'), 0)
+            self.faults = dict.fromkeys((
+                'svc_killed_mid_request', 'svc_crash', 'command_failed',
+                'owner_vanished'), 0)
+        else:
+            self.probes = dict.fromkeys((
+                'svc_restarts', 'stale_requests_reclaimed',
+                'starts_ok', 'starts_not_ready', 'starts_failed',
+                'finishes_complete', 'finishes_repeated',
+                'finish_with_others_registered', 'finish_removed_entries',
+                'port_collisions', 'port_reused_after_death', 'ip_reused',
+                'drain_checks', 'same_instance_overlap',
+                'order_permuted_listings'), 0)
+            self.faults = dict.fromkeys((
+                'start_killed', 'finish_killed', 'finish_killed_then_repeated',
+                'command_failed', 'eaddrinuse'), 0)
         # -- fakes
         self.netdev = netshims.FakeNetdev(seam, subproc, EXT_DEV)
         self.ipt = netshims.FakeIptables(seam, subproc, real_iptables)
@@ -167,8 +174,14 @@ class World:
         self.initial = None
         self.ever_ips = {}
         self.dead_ports = set()
+        self.unprocessed_del = set()   # deletions the service has not seen
+        self.raced = set()     # ids requested again before that (provenance)
 
     # -- plumbing
+    @staticmethod
+    def _bump(table, key):
+        table[key] = table.get(key, 0) + 1
+
     def fail(self, sig, detail):
         if self.violation is None:
             self.violation = {'sig': sig, 'detail': detail, 'step': self.step}
@@ -223,7 +236,8 @@ class World:
         shutil.rmtree(os.path.join(self.apps_dir, name))
         del self.owners[name]
         self.req.pop(name, None)
-        self.faults['owner_vanished'] += 1
+        self.faults['owner_vanished'] = \
+            self.faults.get('owner_vanished', 0) + 1
 
     def op_advance(self, op):
         self.clock.advance(op['dt'])
@@ -595,6 +609,7 @@ class World:
     # ------------------------------------------------------------------
     # network service process (the harness plays LinuxResourceService._run)
     def _svc_down(self):
+        self.unprocessed_del = set()
         if self.watcher is not None:
             self.watcher.inotify.close()
         self.watcher = None
@@ -610,7 +625,8 @@ class World:
         self.probes['svc_restarts'] += 1
         live_before = self._live_requests()
         if live_before:
-            self.probes['svc_restart_with_live_requests'] += 1
+            self.probes['svc_restart_with_live_requests'] = \
+                self.probes.get('svc_restart_with_live_requests', 0) + 1
             if self.prop == 'C14':
                 self.nontrivial += 1
         self.ipt.actor = 'svc'
@@ -627,7 +643,7 @@ class World:
                 self.svc._on_created(impl, path)
             impl.synchronize()
         except simkit.SimCrash:
-            self.faults['svc_killed_mid_request'] += 1
+            self._bump(self.faults, 'svc_killed_mid_request')
             self.log.ev('svc_start', 'killed')
             if watcher is not None:
                 watcher.inotify.close()
@@ -636,7 +652,7 @@ class World:
         except Exception as err:  # pylint: disable=broad-except
             # an unhandled exception ends the service process (it is
             # restarted by the supervisor: a later svc_start op)
-            self.probes['svc_start_failed'] += 1
+            self._bump(self.probes, 'svc_start_failed')
             self.log.ev('svc_start', 'died', type(err).__name__)
             if watcher is not None:
                 watcher.inotify.close()
@@ -656,7 +672,7 @@ class World:
         if self.impl is None:
             return
         self._svc_down()
-        self.faults['svc_crash'] += 1
+        self.faults['svc_crash'] = self.faults.get('svc_crash', 0) + 1
 
     def op_svc_step(self, op):
         if self.impl is None:
@@ -676,13 +692,13 @@ class World:
             gone = before - set(os.listdir(self.rsrc_dir))
             self.probes['stale_requests_reclaimed'] += len(gone)
         except simkit.SimCrash:
-            self.faults['svc_killed_mid_request'] += 1
+            self._bump(self.faults, 'svc_killed_mid_request')
             self.log.ev('svc_step', 'killed')
             self._svc_down()
             self._netsvc_check(op, synced=False)
             return
         except Exception as err:  # pylint: disable=broad-except
-            self.probes['svc_died'] += 1
+            self._bump(self.probes, 'svc_died')
             self.log.ev('svc_step', 'died', type(err).__name__)
             self._svc_down()
             if not self.seam.failed:
@@ -693,6 +709,9 @@ class World:
             return
         self.log.ev('svc_step', [(e.value, os.path.basename(p) if p else None,
                                   _jsonable(r)) for e, p, r in res])
+        for event, path, _r in res:
+            if event == dirwatch.DirWatcherEvent.DELETED:
+                self.unprocessed_del.discard(os.path.basename(path))
         self._netsvc_check(op, synced=False)
 
     def svc_pending(self):
@@ -741,6 +760,11 @@ class World:
             if rid not in live:
                 del self.req[rid]
         holders = {}
+
+        def prov(*rids):
+            if any(r in self.raced for r in rids):
+                return ':id-requested-again-before-its-delete-was-processed'
+            return ''
         for rid in live:
             reply = self._reply_of(rid)
             ent = self.req.setdefault(rid, {'ip': None})
@@ -750,28 +774,30 @@ class World:
                 # the service told the client the request failed: whatever
                 # it was told before no longer stands
                 ent['ip'] = None
+                self.probes['net_replies_error'] += 1
                 continue
+            self.probes['net_replies_ok'] += 1
             ip = reply.get('vip')
             if ip in holders:
-                self.fail('C14:vip-two-owners:netsvc',
+                self.fail('C14:vip-two-owners:netsvc' + prov(holders[ip], rid),
                           'requests %s and %s were both told ip %s' % (
                               holders[ip], rid, ip))
                 return
             holders[ip] = rid
             if vips.get(ip) != rid:
                 if ip in vips:
-                    self.fail('C14:vip-two-owners:netsvc',
+                    self.fail('C14:vip-two-owners:netsvc' + prov(rid, vips[ip]),
                               'live request %s was told ip %s, which the '
                               'vips directory gives to %s (after %s)' % (
                                   rid, ip, vips[ip], op['op']))
                 else:
-                    self.fail('C14:netsvc-reply-ip-not-held',
+                    self.fail('C14:netsvc-reply-ip-not-held' + prov(rid),
                               'live request %s was told ip %s, which is not '
                               'allocated any more (after %s)' % (
                                   rid, ip, op['op']))
                 return
             if ent['ip'] is not None and ent['ip'] != ip:
-                self.fail('C14:netsvc-ip-changed',
+                self.fail('C14:netsvc-ip-changed' + prov(rid),
                           'request %s had ip %s and now has %s (after %s)' %
                           (rid, ent['ip'], ip, op['op']))
                 return
@@ -792,6 +818,9 @@ class World:
         if name not in self.owners:
             return
         self.probes['net_requests'] += 1
+        if name in self.unprocessed_del:
+            self.raced.add(name)
+            self.probes['id_requested_again_before_delete_processed'] += 1
         self._client(name).put(name, {'environment': op['env']})
         self.req.setdefault(name, {'ip': None})
 
@@ -799,6 +828,9 @@ class World:
         name = op['owner']
         if name not in self.owners:
             return
+        if self.impl is not None and \
+                os.path.lexists(os.path.join(self.rsrc_dir, name)):
+            self.unprocessed_del.add(name)
         self._client(name).delete(name)
         self.req.pop(name, None)
 
@@ -821,8 +853,9 @@ class World:
         self.cont[name] = {'manifest': man, 'state': 'requested',
                            'finished': 0, 'data': data_dir, 'created': None,
                            'inst': man['name'], 'ports': []}
+        client = self._client(name)
         if not man['shared_network']:
-            self._client(name).put(name, {'environment': man['environment']})
+            client.put(name, {'environment': man['environment']})
 
     def op_c_start(self, op):
         name = op['name']
@@ -832,23 +865,6 @@ class World:
             return
         man = _copy(cont['manifest'])
         data_dir = cont['data']
-        if man['shared_network']:
-            app_network = {'vip': None, 'veth': None, 'gateway': None,
-                           'external_ip': EXT_IP}
-        else:
-            try:
-                app_network = self._client(name).wait(name, timeout=0)
-            except _base_service.ResourceServiceTimeoutError:
-                self.probes['starts_not_ready'] += 1
-                self.log.ev('c_start', name, 'not-ready')
-                return
-            except _base_service.ResourceServiceRequestError as err:
-                cont['state'] = 'failed'
-                self.probes['starts_failed'] += 1
-                self.log.ev('c_start', name, 'request-error', str(err))
-                return
-        man['network'] = app_network
-        man['vip'] = {'ip0': app_network['gateway'], 'ip1': app_network['vip']}
         for other in self.cont.values():
             if other is not cont and other['inst'] == cont['inst'] and \
                     other['created'] and not other['finished']:
@@ -861,7 +877,18 @@ class World:
         self.pid.pid = op.get('pid', 1)
         coll0 = self.sock.collisions
         sockets = []
+        vip = None
         try:
+            # the network part of runtime.linux._run.run, in its order
+            if man['shared_network']:
+                app_network = {'vip': None, 'veth': None, 'gateway': None,
+                               'external_ip': EXT_IP}
+            else:
+                app_network = self._client(name).wait(name, timeout=0)
+            vip = app_network['vip']
+            man['network'] = app_network
+            man['vip'] = {'ip0': app_network['gateway'],
+                          'ip1': app_network['vip']}
             sockets = runtime.allocate_network_ports(
                 app_network['external_ip'], man)
             app = runtime.save_app(man, data_dir)
@@ -873,6 +900,10 @@ class World:
             cont['state'] = 'started'
             self.probes['starts_ok'] += 1
             self.log.ev('c_start', name, 'ok')
+        except _base_service.ResourceServiceTimeoutError:
+            self.probes['starts_not_ready'] += 1
+            self.log.ev('c_start', name, 'not-ready')
+            return
         except simkit.SimCrash:
             cont['state'] = 'killed'
             self.faults['start_killed'] += 1
@@ -884,7 +915,8 @@ class World:
             self.sock.release(name)
             self.log.ev('c_start', name, 'setup-error', str(err))
         except Exception as err:  # pylint: disable=broad-except
-            # the start aborts (the container is then finished): legal
+            # the start aborts (the container is then finished): a legal
+            # outcome as far as C16 is concerned
             cont['state'] = 'failed'
             self.probes['starts_failed'] += 1
             self.sock.release(name)
@@ -900,16 +932,19 @@ class World:
                                if who == name)
         if any(p in self.dead_ports for p in cont['ports']):
             self.probes['port_reused_after_death'] += 1
-        if app_network['vip'] is not None:
-            if self.ever_ips.get(app_network['vip'], name) != name:
+        if vip is not None:
+            if self.ever_ips.get(vip, name) != name:
                 self.probes['ip_reused'] += 1
-            self.ever_ips[app_network['vip']] = name
+            self.ever_ips[vip] = name
 
     def op_c_finish(self, op):
         name = op['name']
         cont = self.cont.get(name)
         if cont is None or name not in self.owners:
             return
+        if cont['state'] == 'requested':
+            # finished without ever being started: it will not start later
+            cont['state'] = 'aborted'
         # the container's processes are gone: the kernel closed its sockets
         for port in cont['ports']:
             self.dead_ports.add(port)
@@ -934,6 +969,7 @@ class World:
             self.log.ev('c_finish', name, 'complete')
         except simkit.SimCrash:
             self.faults['finish_killed'] += 1
+            cont['finish_killed'] = True
             self.log.ev('c_finish', name, 'killed', self.seam.steps)
         except Exception as err:  # pylint: disable=broad-except
             self.log.ev('c_finish', name, 'raised', type(err).__name__)
@@ -964,6 +1000,9 @@ class World:
         if complete:
             if cont['finished']:
                 self.probes['finishes_repeated'] += 1
+            if cont.get('finish_killed'):
+                self.faults['finish_killed_then_repeated'] += 1
+                cont['finish_killed'] = False
             self.probes['finishes_complete'] += 1
             cont['finished'] += 1
 
@@ -1141,6 +1180,8 @@ class Generator:
             hosts = list(world.cidr)
             if self.rng.random() < 0.15:
                 op['ip'] = '10.99.0.%d' % self.rng.randint(1, 3)
+            elif world.vip_ref and self.rng.random() < 0.5:
+                op['ip'] = self.rng.choice(sorted(world.vip_ref))
             else:
                 op['ip'] = str(self.rng.choice(hosts))
         return op
@@ -1181,7 +1222,22 @@ class Generator:
         owner = self._owner(world)
         if owner is None:
             return None
-        chain, spec = self._rule_spec()
+        if world.rule_ref and self.rng.random() < 0.35:
+            # an entry that is held: same rule, or all but one field the same
+            _key, chain, spec = self._held_rule(world)
+            if self.rng.random() < 0.5:
+                if spec['t'] == 'pt':
+                    spec[self.rng.choice(['src_ip', 'dst_ip'])] = \
+                        self.rng.choice(IPS)
+                else:
+                    fld = self.rng.choice(['proto', 'src_ip', 'dst_ip',
+                                           'src_port', 'dst_port', 'new_ip',
+                                           'new_port'])
+                    spec[fld] = self.rng.choice(
+                        ['tcp', 'udp'] if fld == 'proto' else
+                        IPS if fld.endswith('ip') else PORTS)
+        else:
+            chain, spec = self._rule_spec()
         return {'owner': owner, 'chain': chain, 'rule': spec}
 
     def _held_rule(self, world):
@@ -1232,7 +1288,19 @@ class Generator:
         owner = self._owner(world)
         if owner is None:
             return None
-        return {'owner': owner, 'spec': self._spec()}
+        held = sorted(k for k in world.spec_ref if len(k) == 6 and
+                      not k[0].startswith(HS_HOST))
+        spec = self._spec()
+        if held and self.rng.random() < 0.35:
+            key = self.rng.choice(held)
+            same = {'app': key[0], 'proto': key[1], 'ep': key[2],
+                    'rport': int(key[3]), 'pid': int(key[4]),
+                    'port': int(key[5])}
+            if self.rng.random() < 0.5:
+                fld = self.rng.choice(sorted(same))
+                same[fld] = spec[fld]
+            spec = same
+        return {'owner': owner, 'spec': spec}
 
     def g_spec_unlink(self, world):
         held = sorted(k for k in world.spec_ref if len(k) == 6 and
@@ -1380,6 +1448,8 @@ class Generator:
             return None
         ready = [n for n in names if world.cont[n]['manifest']
                  ['shared_network'] or world._reply_of(n) is not None]
+        if not ready and self.rng.random() < 0.85:
+            return None
         name = self.rng.choice(ready) if ready and self.rng.random() < 0.9 \
             else self.rng.choice(names)
         man = world.cont[name]['manifest']
@@ -1399,8 +1469,10 @@ class Generator:
         todo = [n for n in names if not world.cont[n]['finished'] and
                 world.cont[n]['state'] != 'requested']
         r = self.rng.random()
-        if todo and r < 0.75:
+        if todo and r < 0.8:
             name = self.rng.choice(todo)
+        elif r < 0.9:
+            return None
         else:
             name = self.rng.choice(names)
         man = world.cont[name]['manifest']
@@ -1447,8 +1519,7 @@ def make_config(prop, tier, rng):
         'hot_ports': rng.choice([2, 4, 6, 12]),
         'permute': rng.random() < 0.8,
         'p_svc_kill': rng.choice([0.0, 0.05, 0.15]),
-        'p_cmd_fail': rng.choice([0.0, 0.05, 0.15]) if prop == 'C14' else
-        rng.choice([0.0, 0.0, 0.05]),
+        'p_cmd_fail': rng.choice([0.0, 0.05, 0.15]),
         'p_start_kill': rng.choice([0.0, 0.15, 0.35]),
         'p_finish_kill': rng.choice([0.0, 0.15, 0.35]),
         'wmul': wmul,
@@ -1566,6 +1637,25 @@ class NetSim(enginemod.Engine):
     def make_config(self, prop, tier, rng):
         return make_config(prop, tier, rng)
 
+    def shrink_candidates(self, config, ops):
+        """Simpler variants, least aggressive first (a later one that still
+        fails replaces an earlier one)."""
+        def strip(keys):
+            out = []
+            for op in ops:
+                op = dict(op)
+                for key in keys:
+                    if key == 'ord':
+                        if 'ord' in op:
+                            op['ord'] = 0
+                    else:
+                        op.pop(key, None)
+                out.append(op)
+            return out
+        yield config, strip(['fail_at'])
+        yield config, strip(['ord'])
+        yield config, strip(['ord', 'fail_at'])
+
     def execute(self, prop, config, seed, ops=None, keep_log=False):
         simkit.quiet_logging()
         res = enginemod.Result()
@@ -1573,6 +1663,7 @@ class NetSim(enginemod.Engine):
         log.ev('seed', seed, prop)
         seam = fsseam.Seam()
         seam.make_error = _mk_error
+        seam.on_step = lambda kind, what: log.ev('step', kind, what)
         patches = fsseam.Patches()
         clock = clockmod.Clock(config['start'])
         root = fsseam.make_scratch()
